@@ -138,39 +138,44 @@ def readIndexBody (n : Int) (s : Bytes) (base : Nat) : Outcome BaiValue :=
     else if rest.length < 8 then err
     else pure (some (cnt, len + 8))
 
-/-- `bam.ReadIndex` -/
+/-- `bam.ReadIndex` (since /repo 4339203-era repairs an index without references is read like any
+other: `n == 0` no longer returns `nil, nil`) -/
 def readBAI (s : Bytes) : Outcome BaiValue := do
   let (magic, s) ← take? 4 s
   if magic ≠ [66, 65, 73, 1] then err
   else
     let (n, s) ← rdI32 s
-    if n = 0 then pure none
-    else readIndexBody n s 8
+    readIndexBody n s 8
 
 /-- number of zero-terminated names in a name block that ends with a zero byte:
 `strings.Split(names[:len(names)-1], "\x00")` -/
 def countNames (names : Bytes) : Nat := (splitOn 0 (names.take (names.length - 1))).length
 
-/-- `tabix.ReadFrom`: magic, n_ref, the seven header words, the name block (repair fixes/C11-12:
-`l_nm <= 0` is an error), the name count test, then `internal.ReadIndex` -/
+/-- `readTabixHeader`'s name block: `l_nm < 0` is an error, `l_nm == 0` means no names (/repo bb4b88e),
+otherwise the block must end with a zero byte.  Returns the number of names, `l_nm`, and the rest. -/
+def readNames (s : Bytes) : Outcome (Nat × Nat × Bytes) := do
+  let (lnm, s) ← rdI32 s
+  if lnm < 0 then err
+  else if lnm = 0 then pure (0, 0, s)
+  else
+    let cnt ← makeLen "tabix.readTabixHeader:make([]byte, n)" lnm
+    let (names, s) ← take? cnt s
+    let last ← indexInt "tabix.readTabixHeader:names[len(names)-1]" names ((names.length : Int) - 1)
+    if last ≠ 0 then err
+    else
+      let _ ← sliceTo "tabix.readTabixHeader:names[:len(names)-1]" names (names.length - 1)
+      pure (countNames names, cnt, s)
+
+/-- `tabix.ReadFrom`: magic, n_ref, the six header words, the name block, the name count test
+(`len(idx.refNames) != int(n)`), then `internal.ReadIndex` -/
 def readTabix (s : Bytes) : Outcome BaiValue := do
   let (magic, s) ← take? 4 s
   if magic ≠ [84, 66, 73, 1] then err
   else
     let (n, s) ← rdI32 s
-    if n = 0 then pure none
-    else
-      let s ← skip 24 s
-      let (lnm, s) ← rdI32 s
-      if lnm ≤ 0 then err
-      else
-        let cnt ← makeLen "tabix.readTabixHeader:make([]byte, n)" lnm
-        let (names, s) ← take? cnt s
-        let last ← indexInt "tabix.readTabixHeader:names[len(names)-1]" names ((names.length : Int) - 1)
-        if last ≠ 0 then err
-        else
-          let _ ← sliceTo "tabix.readTabixHeader:names[:len(names)-1]" names (names.length - 1)
-          if (countNames names : Int) ≠ n then err
-          else readIndexBody n s (36 + cnt)
+    let s ← skip 24 s
+    let (nNames, lnm, s) ← readNames s
+    if (nNames : Int) ≠ n then err
+    else readIndexBody n s (36 + lnm)
 
 end Hts.Model.Decoders
